@@ -155,7 +155,7 @@ def step (line : String) : String :=
       if e ≠ .eof then "fail"
       else match convertWith (if op = "t2s" then processEntry else processEntryCur) o es with
         | none => "fail"
-        | some (t, devs) => "ok " ++ ";".intercalate (t.map (describeNode devs))
+        | some (t, devs) => if storable t then "ok " ++ ";".intercalate (t.map (describeNode devs)) else "fail"
     | _, _, _, _, _, _ => "bad-op"
   | ["iter", h] => withHex h fun s => let (es, e) := iterate s; showIter es e
   | ["iterx", r, k, h] => withHex h fun s =>
